@@ -673,6 +673,62 @@ def _shared_memo_over_bitsets(model, R, func, node, cur, deco):
     return True
 
 
+def _memo_param(h):
+    """Index of the parameter that alone keys a home-made memo table in method ``h`` (``T[p] = <call>`` under try/except or
+    a membership test, ``T`` not chosen by ``p``), else None."""
+    hnode = h.node
+    params = list(h.params)
+    env = Env(h)
+    for x in ast.walk(hnode):
+        if not (isinstance(x, ast.Assign) and isinstance(x.value, ast.Call)):
+            continue
+        for t in x.targets:
+            if isinstance(t, ast.Subscript) and isinstance(t.slice, ast.Name) and t.slice.id in params[1:]:
+                table = env.expand(t.value)
+                if any(isinstance(n_, ast.Name) and n_.id == t.slice.id for n_ in ast.walk(table)):
+                    continue
+                guarded = any((isinstance(g, ast.Try) or (isinstance(g, ast.If) and isinstance(g.test, ast.Compare)
+                                                         and isinstance(g.test.ops[0], (ast.In, ast.NotIn))))
+                              and any(y is x for y in ast.walk(g)) for g in ast.walk(hnode))
+                if guarded:
+                    return params.index(t.slice.id)
+    return None
+
+
+def _memo_mixing_sorts(R, func, node):
+    """A method of the same class that memoises by one bare argument is called from this function with an object set at one
+    site and a property set at another: raw bit sets of the two classes with the same bits are equal dictionary keys (axiom
+    about bitsets), so one query is answered with the value stored for the other.  Decided from the two-sorted typing of the
+    caller (sorts.Sorter); silent when only one sort reaches the memo."""
+    if func.cls is None or not func.params:
+        return
+    from .sorts import Sorter
+    self_ = func.params[0]
+    by_h = {}
+    for c in ast.walk(node):
+        if isinstance(c, ast.Call) and isinstance(c.func, ast.Attribute) and isinstance(c.func.value, ast.Name) and c.func.value.id == self_:
+            h = func.cls.methods.get(c.func.attr) if hasattr(func.cls, 'methods') else None
+            if h is None or h is func:
+                continue
+            i = _memo_param(h)
+            if i is None or i - 1 >= len(c.args) or not isinstance(c.args[i - 1], ast.Name):
+                continue
+            by_h.setdefault(c.func.attr, []).append((c, c.args[i - 1].id, h))
+    if not by_h:
+        return
+    types = Sorter(func).types
+    for hname, sites in by_h.items():
+        sorts = {types.get(a) for _, a, _ in sites}
+        if {'O', 'P'} <= sorts:
+            c_o = next(c for c, a, _ in sites if types.get(a) == 'O')
+            c_p = next(c for c, a, _ in sites if types.get(a) == 'P')
+            R.bad('CACHE-KEY', func, c_p, f'{hname}: one memo entry per query',
+                  'a key that tells an object set from a property set (or one table per class)',
+                  f'{hname}() keeps one table keyed by its bare argument; called with an object set (line {c_o.lineno}) and a property set (line {c_p.lineno})',
+                  extra={'consequence': 'bit sets of the two classes with the same bit pattern are equal keys: after an object query the property '
+                                        'query with the same bits returns the stored pair with its sides swapped (and vice versa)'})
+
+
 def shape_changes(model, R, scope):
     """Against the frozen table of today's function shapes (pinned_shape.json):
     KIND-CHANGE   a public function became a generator function or stopped being one - its body (argument checks, the
@@ -751,6 +807,7 @@ def shape_changes(model, R, scope):
                 pass
             elif pinned is None or added:
                 R.unknown('NEW-CACHE', func, node, f'{func.name}: memoisation', f'{what}: whether the value can go stale or be edited is not judged')
+        _memo_mixing_sorts(R, func, node)
         if pinned is not None and cur['raises'] > pinned['raises']:
             R.unknown('NEW-RAISE', func, node, f'{func.name}: rejects only what it rejects today',
                       f'{cur["raises"]} raise statements (today: {pinned["raises"]}): whether well-formed input can meet the new condition is not judged')
